@@ -589,6 +589,18 @@ class History:
                 self.call(op.get("fn", "interrogate_number_of_functions"))
                 self.settle()
                 self.check_flag("count")
+            elif k == "count_first":
+                # C20: "each enumeration count equals the number of entries its accessor actually returns" -- asked as the
+                # very first query after a registration, count first, accessor second
+                cnt = op["fn"]
+                acc = capi.ENUMS[cnt][0]
+                n = self.call(cnt)
+                got = [self.call(acc, i) for i in range(n)]
+                past = self.call(acc, n)
+                self.settle()
+                if any(g == 0 for g in got) or past != 0:
+                    self.v("C20", "enum-count", {"op": cnt, "kind": "count-vs-accessor"},
+                           "%s() = %d as the first query after a registration, but %s returns %s for 0..%d and %d at position %d" % (cnt, n, acc, got[:8], n - 1, past, n))
             elif k == "lookup":
                 # a by-name lookup in the middle of a history (cache freshness path)
                 self.call(op["fn"], op["name"].encode("latin-1"))
